@@ -44,6 +44,12 @@ CHECKS.update({
    note="transport is a seam (lists are copied, objects are not); the full-stack family with real multi-MiB payloads is part of the transport harness (planned)"),
 })
 
+CHECKS.update({
+ "C08": dict(level="model_checking", ref="4 C08", technique="semi-controlled stateless model checking: the real accept loop and runtime goroutines run under the cooperative scheduler (preemption-bounded DFS), real stub plugins on socket pairs are the synchronous environment",
+   text="pkg/adaptation is rebuilt with its locks routed through the scheduler and the accept loop's goroutine turned into a scheduler thread; it runs on a harness listener handing out socket pairs whose other ends are real stubs. Five scenarios (1-2 registering plugins incl. one failing its synchronization / its handshake, 1-2 runtime goroutines creating containers inside sync blocks with bookkeeping in the runtime's store, an unblocked event caller) are explored over every interleaving within 3 (5) preemptions. On every execution: each activated plugin learned of each container exactly once (snapshot xor creation request), no plugin is synchronized or receives events while a block is held, after the last block is released every healthy registration completes (no deadlock), failed plugins get nothing.",
+   note="ttrpc/stub goroutines are outside the scheduler; they only react to the controlled thread that calls them, so an execution is a function of the schedule (checked: the default execution twice, every replayed prefix compared); T-sync is limited to pkg/adaptation in this build; deadlock is declared after a 300 ms grace period"),
+})
+
 NOT_YET = {}
 
 def main():
